@@ -963,6 +963,13 @@ static void cmd_audit(const std::vector<std::string> &tk)
       << " K=" << F->getNumVariables()
       << " lab=" << (fi.el == edge_labeling::MULTI_TERMINAL ? "mt" : fi.el == edge_labeling::EVTIMES ? "evt" : "evp")
       << " del=" << (F->getPolicies().isPessimistic() ? "pess" : F->getPolicies().isOptimistic() ? "opt" : "never");
+    // sizes of the levels, bottom up (relations: -1, 1, -2, 2, ...)
+    s << " lsz=";
+    for (int k=1; k<=int(F->getNumVariables()); k++) {
+        if (k>1) s << ",";
+        if (fi.rel) s << F->getLevelSize(-k) << ",";
+        s << F->getLevelSize(k);
+    }
     s << " ;";
     std::vector<unsigned long> ctcounts(size_t(last)+2, 0);
     compute_table::countAllNodeEntries(F, ctcounts);
